@@ -203,6 +203,15 @@ class Unit:
             rc, so, se, *_ = run(cmd, 300)
             if rc != 0:
                 raise RuntimeError("goto-instrument generate-function-body failed: %s %s" % (so, se))
+        for fn in self.havoc:
+            rc, so, se, *_ = run(["goto-instrument", "--remove-function-body", fn, out, out], 300)
+            if rc != 0:
+                raise RuntimeError("goto-instrument remove-function-body %s failed: %s %s" % (fn, so, se))
+        if self.havoc:
+            rx = "(" + "|".join(re.escape(f) for f in self.havoc) + ")"
+            rc, so, se, *_ = run(["goto-instrument", "--generate-function-body", rx, "--generate-function-body-options", "nondet-return", out, out], 300)
+            if rc != 0:
+                raise RuntimeError("goto-instrument generate-function-body (havoc) failed: %s %s" % (so, se))
         rc, so, se, *_ = run(["goto-instrument", "--show-loops", out], 300)
         loops = {}
         for m in re.finditer(r"^Loop (\S+)\.(\d+):", so, re.M):
